@@ -17,7 +17,9 @@ RULE = (
     "pool, with a deep structural snapshot of every argument before and "
     "after: only append, append_all, insert_at, delete_at, remove, put and "
     "element/member assignment may change an argument, and only their first "
-    "one. Part 2 (Hypothesis): random alias graphs (variables, parameters, "
+    "one; and a call that returns a list, set, map or object returns a new "
+    "object, not one of its arguments, unless the function is a selector, "
+    "an own-kind conversion or a mutator (explicit list). Part 2 (Hypothesis): random alias graphs (variables, parameters, "
     "nested containers, closures) driven by sequences of mutating operations "
     "and non-mutating producers (+ - *, slices, sublist, sorted, reverse, zip, "
     "set algebra, comprehensions, list/set conversion), executed by the "
@@ -35,6 +37,28 @@ ASSUMPTIONS = [
 
 MUTATORS = {"append", "append_all", "insert_at", "delete_at", "remove", "put"}
 MUTATING_FORMS = {"A[B] = C", "A[B] += C", "A->a = B"}
+
+# Functions and forms that may hand back one of their argument objects:
+# selectors (the result is *chosen* among the arguments), conversions of a
+# value to its own kind, mutators returning their target, and functions that
+# pass an argument of a kind they do not apply to straight through.  Every
+# other function that returns a list, set, map or object must return a new one
+# ("values produced by non-mutating operations are independent of their
+# inputs").
+RETURNS_ARGUMENT = {
+    "identity", "if_empty", "if_null", "if_null_or_empty", "non_empty",
+    "non_zero", "min", "max", "map_get", "map_get_pattern", "reduce", "apply",
+    "first", "last", "choice", "const", "div0",             # selectors
+    "list", "set", "map", "object",                          # own-kind conversion
+    "append", "append_all", "insert_at", "delete_at", "remove", "put",
+    "esc", "gcd", "basename", "replace",                    # pass-through
+}
+RETURNS_ARGUMENT_FORMS = {
+    "(fn() A)()", "+ A", "A !> identity()", "A(B)", "A->a = B", "A[B] = C",
+    "A[B] += C", "do A finally B end", "return A", "A !> B()", "A !> B(C)",
+    "A[B, C]", "B !> A(C)", "A(B, C)", "A(...B)", "A(a = B)", "A->a(B)",
+    "A->m(B)",
+}
 
 _SW = {}
 
@@ -68,6 +92,7 @@ def run_snap(case, budget=2.0):
         name = label.split("->")[-1].split(":")[-1]
         target_ok = name in MUTATORS
     else:
+        name = None
         src = c13.form_src(case["form"], len(vals))
         label = "form:" + case["form"]
         target_ok = case["form"] in MUTATING_FORMS
@@ -76,6 +101,16 @@ def run_snap(case, budget=2.0):
     if out[0] == "timeout":
         return None
     after = [sw.snapshot(v) for v in vals]
+    if out[0] == "value" and not (
+            name in RETURNS_ARGUMENT if case["kind"] == "call"
+            else _returns_argument_form(case["form"])):
+        for k, v in enumerate(vals):
+            if out[1] is v and args[k] in sweep.MUTABLE:
+                return Finding(f"{label}|returns-its-argument",
+                               f"{c13.describe(case)}: the result is the "
+                               f"very object passed as argument {k}, so a "
+                               f"later in-place change of either shows in "
+                               f"the other")
     for k, (b, a) in enumerate(zip(before, after)):
         if b == a:
             continue
@@ -85,6 +120,14 @@ def run_snap(case, budget=2.0):
                        f"{c13.describe(case)}: argument {k} was "
                        f"{_show(b)} and is {_show(a)} afterwards")
     return None
+
+
+def _returns_argument_form(form):
+    if form in RETURNS_ARGUMENT_FORMS:
+        return True
+    # control forms whose value is one of their operands (if/and/or/blocks)
+    return any(w in form for w in ("if ", " or ", " and ", "do ", "while ",
+                                   "for ", "def ", " = ", "catch"))
 
 
 def _show(s):
